@@ -87,7 +87,9 @@ def maxBy {α} (cmp : α → α → Ordering) : List α → Option α
   | [] => none
   | x :: xs => some (xs.foldl (fun m y => if cmp m y == .gt then m else y) x)
 
-/-- `AggregateFunction::Min` / `Max` -/
+/-- `AggregateFunction::Min` / `Max` (and the DISTINCT forms): `min_by(order_compare)` / `max_by(order_compare)` — THE
+    comparator of ORDER BY (`Generated.minMaxUseOrderCompare`, table `Comparators`, regenerated; any other comparator
+    at one of the four sites makes the recogniser fail) -/
 def min (E : Env) (vs : List Value) : Value := (minBy (orderCompare E) (nonNull vs)).getD .null
 def max (E : Env) (vs : List Value) : Value := (maxBy (orderCompare E) (nonNull vs)).getD .null
 def minDistinct (E : Env) (vs : List Value) : Value := (minBy (orderCompare E) (distinctVals vs)).getD .null
